@@ -14,8 +14,8 @@
    sort_row receives `(int)(ptr[i+1] - ptr[i])` (32-bit truncation) and touches
    col/val[beg .. beg+len) when len >= 2 -- through BOUNDS-CHECKED accessors here, so an
    out-of-range slice is the explicit result [Error EOOB].
-   [checked = true] is the reader AS IT IS since the repairs 60b70e9 (row_beg <= row_end) and
-   d94af74 (ptr.front() >= 0, ptr non-decreasing, ptr.back() <= nnz) in /repo -- the model the
+   [checked = true] is the reader AS IT IS since the repairs 7c1d34c (row_beg <= row_end) and
+   3c662b9 (ptr.front() >= 0, ptr non-decreasing, ptr.back() <= nnz) in /repo -- the model the
    correspondence harness runs; [checked = false] is the reader BEFORE those repairs, kept
    only as the subject of the historical refutation theorems. *)
 From Coq Require Import List ZArith Lia Bool.
